@@ -6,7 +6,9 @@ use serde_json::Value;
 
 pub mod bcommon;
 pub mod c01;
+pub mod c04;
 pub mod c16;
+pub mod c17;
 
 /// A bounded space of cases with its oracle.
 pub trait Space: Sync {
@@ -80,7 +82,9 @@ pub fn replay_space<S: Space>(space: &S, f: &Failure, prop: &str) -> i32 {
 pub fn run_check(id: &str, tier: &str) -> i32 {
     match id {
         "C01" => c01::run(tier),
+        "C04" => c04::run(tier),
         "C16" => c16::run(tier),
+        "C17" => c17::run(tier),
         _ => {
             eprintln!("MACHINERY-ERROR: unknown property {}", id);
             2
@@ -101,7 +105,9 @@ pub fn run_replay(path: &str) -> i32 {
     let f: Failure = serde_json::from_value(v["failure"].clone()).unwrap();
     match prop.as_str() {
         "C01" => c01::replay(&f),
+        "C04" => c04::replay(&f),
         "C16" => c16::replay(&f),
+        "C17" => c17::replay(&f),
         _ => {
             eprintln!("MACHINERY-ERROR: unknown property {}", prop);
             2
